@@ -5,6 +5,8 @@
                              neighbour mode: overlap -> merge neighbours -> incomplete)
       hmmer / hmmer_enum     hmmer.remove_overlapping
       filter                 filter_results followed by filter_result_multiple
+      compose                find_hmmer_hits (filter_results then filter_result_multiple as composed there;
+                             only run_hmmsearch is replaced)
       docking                filter_nonterminal_docking_domains
 
     Every body collects *all* clause failures of a case and raises the first one that matches no
@@ -30,7 +32,8 @@ RULE = ("Random: 1-7 hits on one or two proteins from a pool of 2-5 profiles (le
         "1/3 and 1/2 completeness thresholds), scores from a 3-value set so that ties are common; the same "
         "construction shaped as HmmerHits (cutoffs, overlap_limit 1/10/100), as HSPs with equivalence groups "
         "(overlaps of 19-22 around the >20 rule, object hashes that collide in small sets) and as docking-domain "
-        "hits around the 50-residue terminal zone. Enumeration: every set of <= 2 (quick) / <= 3 (thorough) "
+        "hits around the 50-residue terminal zone; the HSP specs plus per-profile cutoffs are also fed to the real "
+        "find_hmmer_hits through a replaced run_hmmsearch. Enumeration: every set of <= 2 (quick) / <= 3 (thorough) "
         "distinct hits over a 6-point coordinate grid, 2 profiles, 2 scores, both modes, plus every 11th set of 3 "
         "(quick) / every 37th set of 4 (thorough); the same for remove_overlapping. Every case is evaluated for "
         "all input orders (all n! for n <= 4, a fixed family plus all arrangements of the equal-start groups "
